@@ -311,13 +311,18 @@ def main():
                                "forms": sorted({c["val"][1]["form"] for c in fam})})
     run.sample({"ann": asrc(edge[0]["ann"]) if edge else "", "val": _vkey(edge[0]["val"]) if edge else "",
                 "site": edge[0]["site"] if edge else "", "err": edge[0]["err"] if edge else False})
-    common.require(len(fam) == 3 * len(fnvals) * (maxn + 1), "vacuity: function values x Callable[[..], ..] incomplete")
-    common.require(sum(1 for c in fam if c["err"]) >= 300 and sum(1 for c in fam if not c["err"]) >= 300,
-                   "vacuity: function-value outcomes not mixed")
+    common.require(len(fam) == 3 * len(fnvals) * (maxn + 1),
+                   "vacuity: function values x Callable[[..], ..] incomplete")
+    table = {(vkey(v), n) for v, n in exp["cancall"]}
+    n_adm = sum(1 for c in fam if (vkey(c["val"]), len(c["ann"][2]) - 1) in table)
+    run.put("function_cases_expected", {"no_error": n_adm, "error": len(fam) - n_adm})
+    common.require(n_adm >= 300 and len(fam) - n_adm >= 300,
+                   "vacuity: expected outcomes of the function-value family not mixed")
     common.require(len(edge) >= 150 and {c["site"] for c in edge} == {"arg", "ret", "assign"} and
                    {c["val"][1]["form"] for c in edge} == {"def", "lambda", "method"},
                    "vacuity: keyword-only-default boundary not exercised")
-    common.require(len(nested) >= 3 * 2 * sum(1 for v in fnvals if v[1]["form"] == "def") and len(plain) >= 3 * len(fnsmall) * len(fnother),
+    common.require(len(nested) >= 3 * 2 * sum(1 for v in fnvals if v[1]["form"] == "def") and
+                   len(plain) >= 3 * len(fnsmall) * len(fnother),
                    "vacuity: function values against Optional/Union/non-callable annotations")
   fams = {}
   for idx, fails in bads:
@@ -329,7 +334,8 @@ def main():
     c = cs[0]
     run.violation(key, "%s: %s for value %s against %s at site(s) %s (%d cases)" % (
         key, "error reported on a conforming value" if "false-positive" in key else "no error reported",
-        vsrc(c["val"]), asrc(c["ann"]), sorted({x["site"] for x in cs}), len(cs)),
+        _vkey(c["val"]) if c["val"][0] == "$def" else vsrc(c["val"]), asrc(c["ann"]),
+        sorted({x["site"] for x in cs}), len(cs)),
         {"ann": c["ann"], "val": c["val"], "site": c["site"], "err": c["err"]})
   run.put("disagreement_families", {k: len(v) for k, v in fams.items()})
   return run.finish()
@@ -350,18 +356,18 @@ def _vcontains(v, pred):
 
 
 def _vkey(v):
-  """Name of a value in a finding key: the expression; for a def / method the signature too."""
-  if v[0] == "$def" and v[1]["form"] != "lambda":
-    return "%s(%s)" % (vsrc(v), _params(v[1], False))
-  return vsrc(v)
+  """Name of a value in a finding key (no blanks): the expression; a function by its signature."""
+  if v[0] == "$def":
+    return "%s(%s)" % (v[1]["form"], _params(v[1], False).replace(" ", ""))
+  return vsrc(v).replace(" ", "")
 
 
 def classify(c, f):
   """Key = root-cause family (documented in DESIGN.md section 8) or the exact pair."""
   ann, val = c["ann"], c["val"]
-  if ":" in f:           # explained by exactly one documented deviation (computed by TLC)
+  if ":" in f and ":fn-arity:" not in f:   # explained by documented deviation(s) (computed by TLC)
     return "C02:%s" % f
-  return "C02:%s:%s~%s@%s" % (f, _vkey(val), asrc(ann), c["site"])
+  return "C02:%s:%s~%s@%s" % (f, _vkey(val), asrc(ann).replace(" ", ""), c["site"])
 
 
 if __name__ == "__main__":
